@@ -55,7 +55,8 @@ PlanRun(n) == \A calls \in SeqsUpTo(PlanCalls, n) :
 (* launch: processes, labels, slices; a process built by ProcessBuilder *)
 
 ProcCalls == {C("arg", "a1"), C("args", "a2,a3"), C("default", "true"), C("default", "false"),
-              C("workdir", "app"), C("workdir", "d1")}
+              C("workdir", "app"), C("workdir", "d1"), C("workdir", "dot")}
+              \* ("dot": the explicit directory "." - written as such, and not the same value as "app")
 \* the process document with the CNB defaults applied: default = false, working-dir absent = app dir
 ProcDoc(calls) ==
   LET st[k \in 0..Len(calls)] ==
